@@ -39,7 +39,7 @@ claim("C01",
   "DESIGN.md §4 C01, §10")
 claim("C03",
   "Lean 4 theorems (block shape of blockDen = advertised chunks; chunks sum to shape) + correspondence of model blockDen with every executed block of the real graph + search executing every output key of real graphs",
-  "C03_block_shape / C03_chunks_sum for every well-formed expression of the mini-language, C03x_* for the Expr2 layer (broadcasting elemwise, take, sliding-window reduction chunks), C03r_* for reshape plans; every output block of the real materialized graph (optimize on and off, programs biased to layout-changing rewrites, unknown sizes by block count) is executed and its shape/dtype compared with .chunks.",
+  "C03_block_shape / C03_chunks_sum for every well-formed expression of the mini-language, C03x_* for the Expr2 layer (broadcasting elemwise, take, sliding-window reduction chunks), C03r_* for reshape plans, C03c_* for the node rebuilt by the coarse (adjust_chunks) slice pushdown (Blockwise.chunks does not raise and equals the kept output chunks); every output block of the real materialized graph (optimize on and off, programs biased to layout-changing rewrites, unknown sizes by block count) is executed and its shape/dtype compared with .chunks.",
   TB + "The chunk bridge of _materialize and ChunksFreeze lowering are exercised by the search, not modelled.",
   "DESIGN.md §4 C03")
 claim("C12",
@@ -151,8 +151,8 @@ claim("C29",
   "DESIGN.md §4 C29")
 
 claim("C02",
-  "Lean 4 soundness theorems for 22 rewrite rules on the expression mini-language, the block-id assignment of blockwise fusion, chunk unification at lowering and the gates of the generic Blockwise slice/take pushdown (73 theorems) + congruence/fixpoint theorems (optimize sound for any rule sequence) + correspondence: every traced real rewrite (before/after objects exported) must be den-equal for the model (ru.equiv), instances of proved rules counted + real-code search (4 phase forms vs NumPy, fused vs lowered blocks, every fired rewrite computed on both sides, rule-directed chains, sliding-window kernel substitution)",
-  "C02_rule_sound_<rule> for slice-slice fusion, identity-slice removal, slice through elemwise/transpose/expand_dims/squeeze/reductions/concatenate, rechunk no-op / rechunk-rechunk / through elemwise, transpose, expand_dims / into a source; C02_step_sound, C02_any_sequence, C02_optimize_sound and C02_optimize_compute (with C01) for every well-formed expression. Extensions audited by the same check: slice through broadcast_to, rechunk through concatenate, rechunk-slice composition (Props/C02Ext); fusion: under WF, Ordered, Accepted (model of _remove_conflicting_exprs) and ValidBlock every member gets the block id reached along every path and the fused task reads exactly what the unfused graph reads (C02_fuse_block_ids, Props/C02Fusion); chunk unification at lowering is well-formed, denotes the pointwise op and computes it (C02l_*, Props/C02Lower). the generic Blockwise slice/take pushdown is sound for label-local block functions whenever its gate fires, each gate is necessary (C02g_push_sound, C02g_gate_necessary_*, Props/C02Gate; the coarse adjust_chunks path is search-only). Lowering of other node kinds is covered by the search only; block-layout-sensitive consumers over pushdown targets are searched by harness/props_ext/c02_grid.py.",
+  "Lean 4 soundness theorems for 22 rewrite rules on the expression mini-language, the block-id assignment of blockwise fusion, chunk unification at lowering, the gates of the generic Blockwise slice/take pushdown, the coarse (adjust_chunks) slice pushdown and the slice rule of map_overlap (98 theorems) + congruence/fixpoint theorems (optimize sound for any rule sequence) + correspondence: every traced real rewrite (before/after objects exported) must be den-equal for the model (ru.equiv), instances of proved rules counted + real-code search (4 phase forms vs NumPy, fused vs lowered blocks, every fired rewrite computed on both sides, rule-directed chains, sliding-window kernel substitution)",
+  "C02_rule_sound_<rule> for slice-slice fusion, identity-slice removal, slice through elemwise/transpose/expand_dims/squeeze/reductions/concatenate, rechunk no-op / rechunk-rechunk / through elemwise, transpose, expand_dims / into a source; C02_step_sound, C02_any_sequence, C02_optimize_sound and C02_optimize_compute (with C01) for every well-formed expression. Extensions audited by the same check: slice through broadcast_to, rechunk through concatenate, rechunk-slice composition (Props/C02Ext); fusion: under WF, Ordered, Accepted (model of _remove_conflicting_exprs) and ValidBlock every member gets the block id reached along every path and the fused task reads exactly what the unfused graph reads (C02_fuse_block_ids, Props/C02Fusion); chunk unification at lowering is well-formed, denotes the pointwise op and computes it (C02l_*, Props/C02Lower). the generic Blockwise slice/take pushdown is sound for label-local block functions whenever its gate fires, each gate is necessary (C02g_push_sound, C02g_gate_necessary_*, Props/C02Gate); the coarse adjust_chunks path keeps exactly the blocks meeting the slice and the rewritten node denotes the slice of the original for every block-to-block function (C02c_accept_sound, C02c_findBlockRange_spec, C02c_operand_axis_gates, Props/C02Coarse; chunks: C03c_*, Props/C03Coarse); the slice rule of map_overlap expands by the depth, trims on top and is sound for every boundary kind and window-local function, the periodic guard on the expanded slice is necessary (C02o_accept_sound[_nd,_node], C02o_periodic_guard_necessary, Props/C02Overlap). Lowering of other node kinds is covered by the search only; block-layout-sensitive consumers over pushdown targets are searched by harness/props_ext/c02_grid.py.",
   TB + "The tie is ru.equiv on exported real rewrites; coverage and measure are evidence only. Known findings: swv-layout-drift, take-through-broadcast, slice-through-generic-blockwise.",
   "DESIGN.md §4 C02")
 claim("C08",
